@@ -61,6 +61,7 @@ type SpecFunc struct {
 	Decreases Expr
 	Text      string
 	Rec       bool
+	Opaque    bool // uninterpreted symbol + definitional axiom (good quantifier patterns)
 	File      string
 	Line      int
 }
@@ -106,7 +107,7 @@ var stmtKeywords = map[string]bool{
 	"spec": true, "pred": true, "lemma": true, "axiom": true, "func": true, "interface": true, "functype": true,
 	"prop": true, "mode": true, "requires": true, "ensures": true, "panics": true, "modifies": true,
 	"decreases": true, "loop": true, "invariant": true, "closure": true, "trusted": true, "inline": true,
-	"using": true, "opt": true, "nosafety": true, "induction": true,
+	"using": true, "opt": true, "nosafety": true, "induction": true, "opaque_spec": true, "opaque_pred": true,
 }
 
 type stmt struct {
@@ -174,6 +175,10 @@ func (cs *Contracts) loadContractFile(path, importPath string, external bool) er
 		if j := strings.IndexAny(t, " \t"); j >= 0 {
 			w = t[:j]
 		}
+		if w == "opaque" {
+			t = "opaque_" + strings.TrimSpace(t[len(w):])
+			w = t[:strings.IndexAny(t, " \t")]
+		}
 		if stmtKeywords[w] {
 			stmts = append(stmts, stmt{w, strings.TrimSpace(t[len(w):]), i + 1})
 		} else {
@@ -198,9 +203,12 @@ func (cs *Contracts) loadContractFile(path, importPath string, external bool) er
 	}
 	for _, s := range stmts {
 		switch s.kw {
-		case "spec", "pred":
+		case "spec", "pred", "opaque_spec", "opaque_pred":
 			curF, curLoop, curLemma = nil, nil, nil
-			sf, err := parseSpecDef(s.rest, s.kw == "pred")
+			sf, err := parseSpecDef(s.rest, strings.HasSuffix(s.kw, "pred"))
+			if err == nil && strings.HasPrefix(s.kw, "opaque_") {
+				sf.Opaque = true
+			}
 			if err != nil {
 				return fmt.Errorf("%s:%d: %v", path, s.line, err)
 			}
